@@ -84,20 +84,23 @@ class C34(Check):
     max_paths = {"quick": 800000, "thorough": 8000000}
 
     def bounds(self, tier):
-        return {"instructions": f"<= {self.N[tier]}", "kinds": KINDS, "fixed_qubits": "all u64", "labels": LABELS, "placeholders": NPH}
+        return {"instructions": f"<= {self.N[tier]} (any kind), {self.N[tier] + 1} (LABEL / JUMP only)", "kinds": KINDS, "fixed_qubits": "all u64", "labels": LABELS, "placeholders": NPH}
 
     def setup(self, world, runner, tier):
         self.td = world.td
 
     def path(self, m):
         td = m.td
-        n = m.choose([(k, None) for k in range(1, self.N[m.tier] + 1)])
+        N = self.N[m.tier]
+        # one more instruction when every instruction is a LABEL / JUMP (two placeholders of one base plus a colliding fixed label need three)
+        n = m.choose([(k, None) for k in range(1, N + 2)])
+        kinds = KINDS if n <= N else ["label", "jump"]
         qph = [Agg("QubitPlaceholder", None, [Agg("Arc", None, [UNIT])]) for _ in range(NPH)]
         tph = {}
         spec, body = [], []
         nq = 0
         for i in range(n):
-            k = m.choose([(x, None) for x in KINDS])
+            k = m.choose([(x, None) for x in kinds])
             qs, t = [], None
             arity = {"gate1": 1, "gate2": 2, "measure": 1, "fence": 2}.get(k, 0)
             for j in range(arity):
